@@ -43,6 +43,7 @@ class Doc:
     wrappers: list  # outermost first: ("lambda", head) ("let", SetNode) ("with", env) ("assert", cond) ("paren",) ("call", head)
     core: SetNode
     header: list = field(default_factory=list)
+    footer: list = field(default_factory=list)  # own-line comments behind the last token of the file
     final_newline: bool = True
     alias: tuple | None = None  # (name, via_call): the core set is bound to `name` by an innermost let and the body is `name` / `f name`
 
@@ -163,6 +164,7 @@ def render(doc: Doc) -> str:
     else:
         render_set(doc.core, 0, out)
     out[-1] += "".join(")" for w in doc.wrappers if w[0] == "paren")
+    out.extend(doc.footer)
     return "\n".join(out) + ("\n" if doc.final_newline else "")
 
 
@@ -171,7 +173,7 @@ def render(doc: Doc) -> str:
 
 class DocGen:
     def __init__(self, seed: int, *, comments=True, wrappers=True, max_lets=3, attrpaths=True, nested=True, quoted=True, inherits=True, refs=False,
-                 nested_families=True, with_ident_env=True, lets_anywhere=True, let_before_call=True, trailing_comments=True, after_in_trivia=True, mixed_roots=True, aliases=True, alias_hops=True, blank_close=True):
+                 nested_families=True, with_ident_env=True, lets_anywhere=True, let_before_call=True, trailing_comments=True, after_in_trivia=True, mixed_roots=True, aliases=True, alias_hops=True, blank_close=True, footers=True):
         self.r = random.Random(seed)
         self.comments = comments
         self.wrappers = wrappers
@@ -191,6 +193,7 @@ class DocGen:
         self.aliases = aliases
         self.alias_hops = alias_hops
         self.blank_close = blank_close
+        self.footers = footers
         self.n = 0
         self._depth0 = True
 
@@ -382,7 +385,10 @@ class DocGen:
                 decoy = SetNode([Item("bind", (alias[0],), (False,), SetNode([Item("bind", ("decoy",), (False,), "1")], inline=True))])
                 positions = [i for i in range(len(wrappers) + 1) if not (i > 0 and wrappers[i - 1][0] == "call")]
                 wrappers.insert(r.choice(positions), ("let", decoy, None, None))
-        return Doc(wrappers, core, header, final_newline=r.random() < 0.85, alias=alias)
+        footer = []
+        if self.comments and self.footers and r.random() < 0.08:
+            footer = [self.comment() for _ in range(r.choice([1, 1, 2]))]
+        return Doc(wrappers, core, header, footer=footer, final_newline=r.random() < 0.85, alias=alias)
 
 
 def make(seed: int, **kw):
